@@ -220,9 +220,91 @@ pub fn script_id(bytes: &[u8], real: &RealChain) -> u64 {
   *real.script_ids.get(bytes).expect("script of the dump is not a script of the case")
 }
 
-pub fn realise(chain: &[ABlock], core: &mockcore::Handle) -> RealChain {
+/// bit 3 of the case flags: the chain lives on signet (first inscription height 112402, so the
+/// index must not tie the address index to the inscription index); bit 4: signet with PAD empty
+/// blocks inserted after the genesis block, so that abstract block i >= 1 has height PAD + i:
+/// blocks 1..=11 are below the first inscription height, the others at or above it.
+pub const FLAG_SIGNET: u64 = 8;
+pub const FLAG_PADDED: u64 = 16;
+pub const SIGNET_FIRST_INSCRIPTION_HEIGHT: usize = 112_402;
+pub const PAD: usize = SIGNET_FIRST_INSCRIPTION_HEIGHT - 12;
+/// ids of the padding coinbases (never part of an observation)
+pub const PAD_ID_BASE: u64 = 0x4000_0000;
+
+pub fn network_of(flags: u64) -> bitcoin::Network {
+  if flags & (FLAG_SIGNET | FLAG_PADDED) != 0 {
+    bitcoin::Network::Signet
+  } else {
+    bitcoin::Network::Regtest
+  }
+}
+
+fn pad_coinbase(h: usize) -> bitcoin::Transaction {
+  use bitcoin::{absolute::LockTime, transaction::Version, Amount, OutPoint, Sequence, Transaction, TxIn, TxOut, Witness};
+  Transaction {
+    version: Version(2),
+    lock_time: LockTime::from_consensus(PAD_ID_BASE as u32 + h as u32),
+    input: vec![TxIn {
+      previous_output: OutPoint::null(),
+      script_sig: bitcoin::script::Builder::new().push_int(h as i64).push_int(1).into_script(),
+      sequence: Sequence::MAX,
+      witness: Witness::new(),
+    }],
+    output: vec![TxOut { value: Amount::from_sat(SUBSIDY), script_pubkey: script_of(SCRIPT_EMPTY) }],
+  }
+}
+
+/// The deterministic padding blocks (heights 1..=PAD on top of the signet genesis): one coinbase
+/// paying the subsidy to the empty script.  Built once per process; the serialised blocks are cached
+/// under <target>/hx-satsidx-cache (node data only: the index is always built fresh, so a run
+/// against another source tree never sees an index made by this one).
+pub fn padding() -> &'static Vec<bitcoin::Block> {
+  static P: std::sync::OnceLock<Vec<bitcoin::Block>> = std::sync::OnceLock::new();
+  P.get_or_init(|| {
+    let exe = std::env::current_exe().unwrap();
+    let dir = exe.parent().unwrap().parent().unwrap().join("hx-satsidx-cache").join("v1");
+    let _ = std::fs::create_dir_all(&dir);
+    let file = dir.join(format!("signet-pad-{PAD}.bin"));
+    if let Ok(bytes) = std::fs::read(&file) {
+      let mut v = Vec::with_capacity(PAD);
+      let mut pos = 0;
+      while pos < bytes.len() {
+        let (b, used): (bitcoin::Block, usize) = bitcoin::consensus::deserialize_partial(&bytes[pos..]).unwrap();
+        pos += used;
+        v.push(b);
+      }
+      if v.len() == PAD {
+        return v;
+      }
+    }
+    let mut prev = bitcoin::blockdata::constants::genesis_block(bitcoin::Network::Signet).block_hash();
+    let mut v = Vec::with_capacity(PAD);
+    let mut out = Vec::new();
+    for h in 1..=PAD {
+      let b = bitcoin::Block {
+        header: bitcoin::block::Header {
+          version: bitcoin::block::Version::ONE,
+          prev_blockhash: prev,
+          merkle_root: bitcoin::TxMerkleNode::all_zeros(),
+          time: h as u32,
+          bits: bitcoin::CompactTarget::from_consensus(0),
+          nonce: h as u32,
+        },
+        txdata: vec![pad_coinbase(h)],
+      };
+      prev = b.block_hash();
+      out.extend(bitcoin::consensus::serialize(&b));
+      v.push(b);
+    }
+    let _ = std::fs::write(&file, out);
+    v
+  })
+}
+
+pub fn realise(chain: &[ABlock], flags: u64) -> RealChain {
   use bitcoin::{absolute::LockTime, transaction::Version, Amount, OutPoint, ScriptBuf, Sequence, Transaction, TxIn, TxOut, Witness};
-  let genesis = bitcoin::blockdata::constants::genesis_block(bitcoin::Network::Regtest);
+  let genesis = bitcoin::blockdata::constants::genesis_block(network_of(flags));
+  let padded = flags & FLAG_PADDED != 0;
   let mut real = RealChain {
     blocks: vec![genesis.clone()],
     txid_of: HashMap::new(),
@@ -241,11 +323,24 @@ pub fn realise(chain: &[ABlock], core: &mockcore::Handle) -> RealChain {
   real.script_ids.insert(script_of(SCRIPT_GENESIS).into_bytes(), SCRIPT_GENESIS);
   real.script_ids.insert(Vec::new(), SCRIPT_EMPTY);
   let mut prev = genesis.block_hash();
-  let _ = core;
+  if padded {
+    for (i, b) in padding().iter().enumerate() {
+      let id = PAD_ID_BASE + 1 + i as u64;
+      let tx = &b.txdata[0];
+      let txid = tx.compute_txid();
+      real.txid_of.insert(id, txid);
+      real.id_of.insert(txid, id);
+      real.tx_of.insert(id, tx.clone());
+      real.blocks.push(b.clone());
+    }
+    prev = real.blocks.last().unwrap().block_hash();
+  }
+  let offset = if padded { PAD } else { 0 };
   for (h, b) in chain.iter().enumerate().skip(1) {
+    let h = h + offset;
     let mut txdata = Vec::new();
     for (i, t) in b.iter().enumerate() {
-      assert!(t.id != 0 && t.id < u32::MAX as u64, "transaction ids are 1..2^32-1");
+      assert!(t.id != 0 && t.id < PAD_ID_BASE, "transaction ids are 1..2^30-1");
       let input = if i == 0 {
         vec![TxIn {
           previous_output: OutPoint::null(),
@@ -480,6 +575,14 @@ fn gen_sched(rng: &mut Rng, nblocks: u64, prop: &str) -> Sched {
   if rng.chance(1, 2) {
     flags |= 2;
   }
+  if prop == "C17" && rng.chance(1, 4) {
+    // signet: the first inscription height is not 0; the address index must not depend on it
+    flags |= FLAG_SIGNET;
+    if rng.chance(1, 2) {
+      flags |= 4; // no sat index
+      flags &= !2; // inscriptions indexed
+    }
+  }
   let mut updates = Vec::new();
   let n = rng.below(4);
   for _ in 0..n {
@@ -574,6 +677,23 @@ pub fn gen_cases(rng: &mut Rng, tier: &str, prop: &str) -> Vec<Line> {
     (_, _) => (120, 12),
   };
   let mut v = Vec::new();
+  if prop == "C17" {
+    // signet chains padded beyond the first inscription height: outputs (several scripts, some
+    // reused) created and partly spent below height 112402, more created and spent above it
+    let npad = if tier == "thorough" { 6 } else { 0 }; // quick: the padded corpus case only
+    for k in 0..npad {
+      let nblocks = rng.range(16, 24);
+      let mut chain = gen_chain(rng, nblocks, 4).0;
+      while crate::oracle::has_spent_duplicate(&Case { sched: Sched::default(), chain: chain.clone(), queries: Vec::new() }) {
+        chain = gen_chain(rng, nblocks, 4).0;
+      }
+      // inscriptions indexed; without the sat index in the even cases
+      let flags = 1 | FLAG_PADDED | if k % 2 == 0 { 4 } else { 0 };
+      let updates = if rng.chance(1, 2) { vec![rng.range(3, 11)] } else { Vec::new() };
+      let sched = Sched { commit_interval: 5000, headers_far: false, flags, updates };
+      v.push(case_line(&Case { sched, chain, queries: Vec::new() }));
+    }
+  }
   for i in 0..n {
     let nblocks = if i % 10 == 0 { rng.range(1, 3) } else { rng.range(2, max_blocks) };
     let max_tx = *rng.pick(&[0u64, 2, 4, 6]);
@@ -638,6 +758,11 @@ pub fn categorise(c: &Case, prop: &str) -> String {
         }
       }
     }
+  }
+  if c.sched.flags & FLAG_PADDED != 0 {
+    tags.push("signet-padded");
+  } else if c.sched.flags & FLAG_SIGNET != 0 {
+    tags.push("signet");
   }
   if ntx == 0 {
     return format!("trivial-{prop}/coinbases-only");
